@@ -375,6 +375,13 @@ def run(rep):
         bad, und = [], None
         for cj in _conjuncts(g):
             if cj[0] != 'cmp' or cj[1] not in ('<', '<=', '>', '>='):
+                # the truth value of a real-valued score used as a test: a score of exactly 0 is a legitimate value (log odds ratio of a
+                # table with odds ratio 1) and would be taken for "undefined"
+                if cj[0] != 'cmp' and pq.find(cj, lambda x: x[0] == 'call' and x[1] in ('log', 'sqrt')) and not pq.call_named(cj, "isfinite") and not pq.call_named(cj, "isnan"):
+                    bad.append(f"truth value of the real-valued expression {show(cj)[:50]} (false when it is exactly 0)")
+                    continue
+                if pq.call_named(cj, "isfinite"):
+                    continue
                 und = f"guard form {show(cj)[:60]}"
                 break
             try:
